@@ -166,3 +166,20 @@ func verifGoCallVariadic(a, b uint64) uint64 { return verifGoVariadic(a, b) | ve
 //@ func verifGoCallVariadic
 //@   mode bv
 //@   ensures r: result == a | b
+
+func verifGoRangePtr(u, v *[4]uint64) uint64 {
+	var r uint64
+	buf := [2]uint64{7, 9}
+	defer clear(buf[:])
+	for i := range u {
+		r |= u[i] ^ v[i]
+	}
+	for _, x := range v {
+		r |= x & 1
+	}
+	return r | buf[0]
+}
+
+//@ func verifGoRangePtr
+//@   mode bv
+//@   ensures r: result == (u[0] ^ v[0]) | (u[1] ^ v[1]) | (u[2] ^ v[2]) | (u[3] ^ v[3]) | ((v[0] | v[1] | v[2] | v[3]) & 1) | 7
